@@ -11,18 +11,26 @@
 From Coq Require Import List NArith Bool Arith.
 Import ListNotations.
 From AV Require Import Generated.WsSessionGen Model.WsSession Proofs.WsSessionWire Proofs.WsSessionTransport
-  Proofs.WsSessionWitness.
+  Proofs.WsSessionWitness Proofs.WsSessionProgress.
 Open Scope N_scope.
 
-(* ---- at most one close frame, no data frame after it: full, both sides, all interleavings ---------- *)
+(* ---- at most one close frame: both sides, all interleavings of the model ----------------------------- *)
 Theorem C13_one_close_frame : forall c s, reach c s -> (count_close (sent s) <= 1)%nat.
 Proof. exact one_close_frame. Qed.
 Print Assumptions C13_one_close_frame.
 
-Theorem C13_no_data_after_close : forall c s, reach c s ->
+(* ---- no data frame after the close frame --------------------------------------------------------------
+   PARTIAL.  The model has no write-side flow control: `protocol._drain_helper()` never suspends, so
+   WebSocketWriter.close() writes the close frame and sets `_closing` in one step.  Under that assumption the
+   statement holds in every reachable state of both sides.  Without it the implementation violates it: while the
+   transport has paused writing, close() is suspended inside send_frame's drain AFTER the close frame is on the
+   wire and BEFORE `finally: self._closing = True`, and a concurrent send_str() writes a data frame behind it
+   (known finding C13-close-under-write-backpressure, corpus/C13/server_data_after_close_under_backpressure.json;
+   found by the harness's implementation-only back-pressure suite). *)
+Theorem C13_no_data_after_close_partial : forall c s, reach c s ->
   forall l1 code l2, sent s = l1 ++ FClose code :: l2 -> ~ In FText l2.
 Proof. exact (fun c s H => ok_sent_spec _ (no_data_after_close c s H)). Qed.
-Print Assumptions C13_no_data_after_close.
+Print Assumptions C13_no_data_after_close_partial.
 
 (* ---- the transport is closed once the session is closed --------------------------------------------
    Full statement: forall c s, reach c s -> finished c s -> tr_closing s = true.
@@ -40,6 +48,13 @@ Theorem C13_closed_implies_transport_closed_partial : forall c s,
   reach c s -> finished c s -> cw_leak s = false -> tr_closing s = true.
 Proof. exact transport_closed_partial. Qed.
 Print Assumptions C13_closed_implies_transport_closed_partial.
+
+(* On the client the escape does not exist: the statement is full there. *)
+Theorem C13_closed_implies_transport_closed_client : forall c s,
+  c_side c = Client -> reach c s -> closed s = true ->
+  (forall t, closer c (t_pc (tasks s t)) = false) -> tr_closing s = true.
+Proof. exact client_closed_implies_transport_closed. Qed.
+Print Assumptions C13_closed_implies_transport_closed_client.
 
 (* ---- the reported close code ------------------------------------------------------------------------
    Full statement: in a finished session close_code is 1006 or a code the peer sent in a close frame.
@@ -70,21 +85,129 @@ Example C13_witness_server_close_racing_eof :
 Proof. exact witness_server_eof_code_1000. Qed.
 Print Assumptions C13_witness_server_close_racing_eof.
 
-(* ---- close() returns within the close timeout ---------------------------------------------------------
-   Client: the deadline is re-armed for every message read while waiting for the peer's close frame
+(* ---- close() returns within the close timeout (bounded progress under timer fairness) -----------------
+   (1) Invariant, both sides, all interleavings: while close() waits for the peer's close frame its timeout is
+       armed with a deadline at most one close timeout ahead of the current time — or it has already fired and the
+       wake-up is pending. *)
+Theorem C13_close_timer_armed : forall c s t k,
+  reach c s -> t_pc (tasks s t) = PCloseRead k ->
+  (exists d, t_tmo (tasks s t) = Some d /\ d <= now s + c_close_tmo c) \/
+  (t_expired (tasks s t) = true /\ t_fut (tasks s t) <> None).
+Proof. exact close_timer_armed. Qed.
+Print Assumptions C13_close_timer_armed.
+
+(* (2) when the clock reaches the deadline the timer callback is in the ready queue (for any state) *)
+Theorem C13_close_timer_queued_at_deadline : forall s t d dt,
+  (t < ntasks)%nat -> t_tmo (tasks s t) = Some d -> d <= now s + dt ->
+  In (RTimer (TTask t)) (ready (advance s dt)).
+Proof. exact deadline_queues_timer. Qed.
+Print Assumptions C13_close_timer_queued_at_deadline.
+
+(* (3) running it marks the task expired and queues its wake-up *)
+Theorem C13_close_timer_fires : forall c s t d,
+  t_tmo (tasks s t) = Some d -> d <= now s -> t_fut (tasks s t) = None ->
+  let s' := run_timer c s (TTask t) in
+  t_expired (tasks s' t) = true /\ t_fut (tasks s' t) = Some FCancelled /\ t_pc (tasks s' t) = t_pc (tasks s t) /\
+  In (RWake t) (ready s').
+Proof. exact timer_fires_queues_wake. Qed.
+Print Assumptions C13_close_timer_fires.
+
+(* (4) and that wake-up (after expiry or cancellation) ends close() in one step: it returns or raises *)
+Theorem C13_close_returns_after_expiry : forall c s t k fr,
+  t_pc (tasks s t) = PCloseRead k -> t_fut (tasks s t) = Some fr ->
+  (t_expired (tasks s t) = true \/ t_cancel (tasks s t) = true) ->
+  exists r, t_pc (tasks (run_wake c s t) t) = PDone r.
+Proof. exact expired_wake_ends_close. Qed.
+Print Assumptions C13_close_returns_after_expiry.
+
+(* (5) server: a wake-up by a message that is not the peer's close frame ends close() or re-suspends it under
+   the SAME deadline, so the whole wait is bounded by one close timeout. *)
+Theorem C13_close_deadline_kept_server : forall c s t k d,
+  c_side c = Server ->
+  t_pc (tasks s t) = PCloseRead k -> t_fut (tasks s t) = Some FOk -> t_tmo (tasks s t) = Some d ->
+  t_expired (tasks s t) = false -> t_cancel (tasks s t) = false ->
+  let s' := run_wake c s t in
+  (exists r, t_pc (tasks s' t) = PDone r) \/ (t_pc (tasks s' t) = PCloseRead k /\ t_tmo (tasks s' t) = Some d).
+Proof. exact server_wake_keeps_deadline. Qed.
+Print Assumptions C13_close_deadline_kept_server.
+
+(* (5) is refuted for the client: the deadline is re-armed for every message read while waiting
    (corpus/C13/client_close_timeout_restarts.json): close() called at time 0 with timeout 9 is still blocked at
-   time 16, its deadline now 17.  The server keeps one deadline. *)
+   time 16, its deadline now 17.  (1)-(4) still hold for the client: each single wait is bounded. *)
 Example C13_close_deadline_extended_client :
   exists s, reach cfgC s /\ now s = now (init cfgC) + 16 /\ c_close_tmo cfgC = 9 /\
             t_pc (tasks s 0) = PCloseRead KTop /\ t_tmo (tasks s 0) = Some (now (init cfgC) + 17) /\ ready s = [].
 Proof. exact witness_client_deadline_extended. Qed.
 Print Assumptions C13_close_deadline_extended_client.
 
-Example C13_close_deadline_kept_server :
+Example C13_close_deadline_kept_server_example :
   exists s, reach cfgS s /\ now s = now (init cfgS) + 16 /\
             t_pc (tasks s 0) = PDone (RBool true) /\ close_code s = Some ws_close_abnormal /\ tr_closing s = true.
 Proof. exact witness_server_deadline_kept. Qed.
-Print Assumptions C13_close_deadline_kept_server.
+Print Assumptions C13_close_deadline_kept_server_example.
+
+Example C13_example_blocked_close :
+  exists s, reach cfgS s /\ t_pc (tasks s 0) = PCloseRead KTop /\ t_fut (tasks s 0) = None /\
+            t_tmo (tasks s 0) = Some (now s + 9) /\ t_expired (tasks s 0) = false /\ t_cancel (tasks s 0) = false.
+Proof. exact witness_blocked_close. Qed.
+Print Assumptions C13_example_blocked_close.
+
+(* ---- receive() never blocks forever: every terminating event wakes a blocked receive() -------------------
+   `woken s' r`: the future task r is suspended on is completed and its wake-up is in the ready queue.
+   PARTIAL: each statement assumes that the blocked receive() is the reader queue's registered waiter
+   (q_waiter s = Some r).  Missing: the invariant "a blocked receive() whose future is pending is registered".
+   It is not a theorem of the faithful model in full generality: WebSocketDataQueue.read() executes
+   `self._waiter = None` when it is cancelled, whoever is registered, so with three tasks (a cancelled receive()
+   woken late while a close() of another task is registered) a registration can be wiped; that waiter is then
+   woken only by its own timeout (bounded by (1)-(4) for close()). *)
+Theorem C13_receive_wakes_on_peer_frame_partial : forall c s p r,
+  q_waiter s = Some r -> t_fut (tasks s r) = None ->
+  tr_closing s = false -> lost s = false -> proto_close s = false -> rd_exc s = false ->
+  woken (deliver c s p) r.
+Proof. exact peer_frame_wakes. Qed.
+Print Assumptions C13_receive_wakes_on_peer_frame_partial.
+
+Theorem C13_receive_wakes_on_connection_loss_partial : forall c s r,
+  q_waiter s = Some r -> t_fut (tasks s r) = None -> lost s = false -> (c_side c = Client -> proto_close s = false) ->
+  woken (conn_lost c s) r.
+Proof. exact connection_loss_wakes. Qed.
+Print Assumptions C13_receive_wakes_on_connection_loss_partial.
+
+Theorem C13_receive_wakes_on_close_call_partial : forall c s t k code r,
+  q_waiter s = Some r -> t_fut (tasks s r) = None -> r <> t -> waiting s = true ->
+  match c_side c with
+  | Server => closed s = false /\ tr_closing s = false /\ close_wait s = None
+  | Client => closing s = false
+  end ->
+  woken (close_entry c s t k code) r.
+Proof. exact close_call_wakes. Qed.
+Print Assumptions C13_receive_wakes_on_close_call_partial.
+
+Theorem C13_receive_wakes_on_pong_timeout_partial : forall c s r,
+  q_waiter s = Some r -> t_fut (tasks s r) = None -> closed s = false -> waiting s = true -> closing s = false ->
+  woken (ping_pong_exc c s) r.
+Proof. exact pong_timeout_wakes. Qed.
+Print Assumptions C13_receive_wakes_on_pong_timeout_partial.
+
+(* no registration needed for these two: cancellation, and the wake-up of a cancelled / timed-out receive() *)
+Theorem C13_receive_wakes_on_cancel : forall s r,
+  t_pc (tasks s r) = PRecvWait -> t_fut (tasks s r) = None -> woken (cancel_task s r) r.
+Proof. exact cancel_wakes. Qed.
+Print Assumptions C13_receive_wakes_on_cancel.
+
+Theorem C13_receive_ends_after_cancel_or_timeout : forall c s r fr,
+  t_pc (tasks s r) = PRecvWait -> t_fut (tasks s r) = Some fr ->
+  (t_cancel (tasks s r) = true \/ t_expired (tasks s r) = true) ->
+  t_pc (tasks (run_wake c s r) r) = PDone (if is_timeout (tasks s r) then XTimeout else XCancelled).
+Proof. exact cancelled_wake_ends_receive. Qed.
+Print Assumptions C13_receive_ends_after_cancel_or_timeout.
+
+Example C13_example_blocked_receive :
+  exists s, reach cfgS s /\ t_pc (tasks s 0) = PRecvWait /\ t_fut (tasks s 0) = None /\ q_waiter s = Some 0%nat /\
+            waiting s = true /\ closed s = false /\ closing s = false /\ tr_closing s = false /\ lost s = false /\
+            proto_close s = false /\ rd_exc s = false /\ close_wait s = None.
+Proof. exact witness_blocked_receive. Qed.
+Print Assumptions C13_example_blocked_receive.
 
 (* ---- non-vacuity: clean closing handshakes are reachable finished states ----------------------------- *)
 Example C13_example_clean_server :
@@ -98,3 +221,9 @@ Example C13_example_clean_client :
             sent s = [FClose 1000] /\ close_code s = Some 4002 /\ t_pc (tasks s 1) = PDone (RBool true).
 Proof. exact witness_clean_client. Qed.
 Print Assumptions C13_example_clean_client.
+
+(* the reachable state behind the remark above: a close() blocked in reader.read() whose registration was wiped *)
+Example C13_example_registration_wiped :
+  exists s, reach cfgC s /\ t_pc (tasks s 2) = PCloseRead KTop /\ t_fut (tasks s 2) = None /\ q_waiter s = None /\ ready s = [].
+Proof. exact witness_registration_wiped. Qed.
+Print Assumptions C13_example_registration_wiped.
